@@ -53,7 +53,8 @@ def plan(tier):
         "min_nontrivial": 8 if quick else 60,
         "required_counters": ["job_tokens_checked", "dir_exists_checked", "registration_checked",
                               "injectivity_checked", "jobs_on_shell_remote", "jobs_on_local",
-                              "jobs_multi_location", "jobs_with_fixed_dir", "jobs_without_fixed_dir"],
+                              "jobs_multi_location", "jobs_with_fixed_dir", "jobs_without_fixed_dir",
+                              "fault_jobs_nonfirst_only"],
         "rule": "one case per generated program (deployments x steps x targets x fixed-directory mask x sizes); "
                 "distinct = distinct program; non-trivial = >= 2 jobs were alive at the same time and at least "
                 "one directory kind was not fixed.",
@@ -63,7 +64,7 @@ def plan(tier):
 
 
 # --------------------------------------------------------------------------------------
-def gen_case(rng, quick=True, remote=None):
+def gen_case(rng, quick=True, remote=None, faults=True):
     """remote: None = any mix, True = at least one shell-based remote deployment, False = none"""
     deps = []
     mixes = [["shell"], ["local"], ["hw"], ["shell", "local"], ["shell", "hw"], ["shell", "shell"], ["hw", "local"]]
@@ -75,6 +76,14 @@ def gen_case(rng, quick=True, remote=None):
         if k == "shell":
             d["nloc"] = rng.choice([1, 2, 2, 3])
             d["slots"] = rng.choice([1, 2, 4, 8, 64])
+            if faults and rng.random() < 0.5:
+                # directory creation fails on a seeded subset of this deployment's locations
+                d["nloc"] = max(2, d["nloc"])
+                which = rng.choice(["first", "nonfirst", "nonfirst", "nonfirst", "all", "random"])
+                idx = {"first": [0], "nonfirst": list(range(1, d["nloc"])) if rng.random() < 0.5 else [d["nloc"] - 1],
+                       "all": list(range(d["nloc"])),
+                       "random": sorted(rng.sample(range(d["nloc"]), rng.randint(1, d["nloc"])))}[which]
+                d["fault"] = {"kind": rng.choice(["file", "run"]), "locations": idx}
         elif k == "hw":
             d["nloc"] = 2
             d["slots"] = rng.choice([2, 4, 8, 64])
@@ -87,6 +96,8 @@ def gen_case(rng, quick=True, remote=None):
             t = {"dep": d["name"], "locations": 1, "own_workdir": rng.random() < 0.5 or not d["dep_workdir"]}
             if d["kind"] in ("shell", "hw") and d["nloc"] >= 2 and rng.random() < 0.5:
                 t["locations"] = 2
+            if d.get("fault") and d["nloc"] >= 2 and rng.random() < 0.8:
+                t["locations"] = 2  # the fault class is about multi-location jobs
             tg.append(t)
         mask = rng.choice([[0, 0, 0], [0, 0, 0], [1, 1, 1], [1, 0, 0], [0, 1, 0], [0, 0, 1], [1, 0, 1]])
         if any(kind_of[t["dep"]] == "shell" for t in tg):  # every remote operation is a real shell round trip
@@ -121,7 +132,7 @@ async def run_case(sh: Shard, case, serial=0, deadline=None):
     crng = random.Random(case["jitter"] ^ 0x5A5A)
     ctx = make_context(os.path.join(P, "ctx"), db="vf-jitter")
     wf = Workflow(context=ctx, name=f"c15-{serial}", config={})
-    dcs, dinfo = {}, {}
+    dcs, dinfo, faulted = {}, {}, {}
     for d in case["deployments"]:
         name = d["name"]
         if d["kind"] == "local":
@@ -136,9 +147,22 @@ async def run_case(sh: Shard, case, serial=0, deadline=None):
                                   workdir=os.path.join(base, "dwd") if d["dep_workdir"] else None)
         else:
             base = os.path.join(P, "m", name)
+            fault = d.get("fault") if c15_world.unshare_available() else None
+            bad = [f"{name}-r{i}" for i in fault["locations"]] if fault else []
+            faulted[name] = set(bad)
+            if fault and fault["kind"] == "file":
+                # on the faulted locations every directory the jobs could be created under is a regular
+                # file, so `mkdir -p <workdir>/<uuid>` fails there with ENOTDIR
+                for ln in bad:
+                    root = os.path.join(P, "roots", name, ln)
+                    os.makedirs(root, exist_ok=True)
+                    for entry in ["dwd", "fixed"] + ["twd-" + s["name"] for s in case["steps"]]:
+                        with open(os.path.join(root, entry), "w") as f:
+                            f.write("not a directory\n")
             dc = DeploymentConfig(name=name, type="vf-c15-shell",
                                   config={"locations": [f"{name}-r{i}" for i in range(d["nloc"])], "slots": d["slots"],
-                                          "mount": base, "roots": os.path.join(P, "roots", name)},
+                                          "mount": base, "roots": os.path.join(P, "roots", name),
+                                          "fail_mkdir": bad if fault and fault["kind"] == "run" else []},
                                   external=False, lazy=False,
                                   workdir=posixpath.join(base, "dwd") if d["dep_workdir"] else None)
         dcs[name], dinfo[name] = dc, dict(d, base=base)
@@ -148,6 +172,7 @@ async def run_case(sh: Shard, case, serial=0, deadline=None):
     seen = {}        # job name -> record made when its JobToken was put
     alive = set()    # jobs whose token was put and that the completer has not completed yet
     peak = {"n": 0}
+    fault_seen = {"n": 0}
     completers = []
     problems = []    # (mechanism, what, extra)
 
@@ -185,14 +210,7 @@ async def run_case(sh: Shard, case, serial=0, deadline=None):
         import time
 
         while True:
-            await asyncio.sleep(0.25)
-            if time.time() - last_event["t"] <= 2.0:
-                continue
-            if alive:
-                sh.count("stall_guard_releases")
-                release_one()
-                last_event["t"] = time.time()
-                continue
+            await asyncio.sleep(0.1)
             # a ScheduleStep that died after its job was allocated leaves the slot occupied for ever;
             # free it so that the other steps of the program can go on (the dead step is judged below)
             dead = {st.job_prefix for st in wf.steps.values()
@@ -201,7 +219,10 @@ async def run_case(sh: Shard, case, serial=0, deadline=None):
                 if a.status == Status.FIREABLE and jn not in seen and posixpath.dirname(jn) in dead:
                     sh.count("orphan_allocations_released")
                     await ctx.scheduler.notify_status(jn, Status.FAILED)
-            last_event["t"] = time.time()
+            if alive and time.time() - last_event["t"] > 2.0:
+                sh.count("stall_guard_releases")
+                release_one()
+                last_event["t"] = time.time()
 
     def monitor(step_case, port):
         orig_put = port.put
@@ -221,6 +242,12 @@ async def run_case(sh: Shard, case, serial=0, deadline=None):
                     if kind == "shell":
                         sh.count("jobs_multi_location_private_fs")
                 sh.count("jobs_with_fixed_dir" if any(step_case["fixed"].values()) else "jobs_without_fixed_dir")
+                hit = [l.name for l in alloc.locations if l.name in faulted.get(dep, ())]
+                if hit:
+                    # creation fails there: the token may only exist if the directories really do (judged below)
+                    sh.count("job_tokens_with_faulted_location")
+                    rec["faulted_locations"] = hit
+                    fault_seen["n"] += 1
                 for k, d in zip(KINDS, (job.input_directory, job.output_directory, job.tmp_directory)):
                     rec["dirs"][k] = d
                     rec["host"][k] = []
@@ -307,6 +334,17 @@ async def run_case(sh: Shard, case, serial=0, deadline=None):
         # ---- end-of-program oracle --------------------------------------------------
         if outcome in ("ok", "truncated"):
             for jn, s in (expected_jobs.items() if outcome == "ok" else ()):
+                a = ctx.scheduler.job_allocations.get(jn)
+                bad_locs = [l.name for l in a.locations if l.name in faulted.get(a.target.deployment.name, ())] if a else []
+                if a is not None and bad_locs:
+                    first_ok = a.locations[0].name not in bad_locs
+                    fault_seen["n"] += 1 if jn not in seen else 0
+                    sh.count("fault_jobs_nonfirst_only" if first_ok else "fault_jobs_first_location")
+                    if jn not in seen:
+                        # directory creation failed on an allocated location and no JobToken was emitted:
+                        # exactly what the statement allows
+                        sh.count("fault_jobs_rejected_without_token")
+                        continue
                 if jn not in seen and jn in ctx.scheduler.job_allocations:
                     st = [x for x in wf.steps.values() if isinstance(x, ScheduleStep) and x.job_prefix == "/" + s["name"]][0]
                     problems.append((None, f"job {jn} was allocated by the scheduler but its ScheduleStep ended "
@@ -341,7 +379,7 @@ async def run_case(sh: Shard, case, serial=0, deadline=None):
         except Exception:
             pass
         shutil.rmtree(P, ignore_errors=True)
-    nontrivial = peak["n"] >= 2 and any(not all(s["fixed"].values()) for s in case["steps"])
+    nontrivial = (peak["n"] >= 2 and any(not all(s["fixed"].values()) for s in case["steps"])) or fault_seen["n"] > 0
     sh.case(("prog", digest(case)), nontrivial=nontrivial and outcome == "ok")
     for mech, what, extra in problems[:5]:
         sh.violation(mech, what, dict(case, detail=extra, peak_alive=peak["n"]))
